@@ -146,6 +146,51 @@ func transpilePath(path string, target Target) (res TResult) {
 	return res
 }
 
+// TranspileSeqSrc transpiles one single-file program for several targets in turn on ONE transpiler object
+// (a fresh converter per target), the way the tsh command serves "-t batch -t bash".
+func TranspileSeqSrc(src string, targets ...Target) []TResult {
+	dir := NewDir("src")
+	defer os.RemoveAll(dir)
+	WriteFiles(dir, map[string]string{"main.tsh": src})
+	path := filepath.Join(dir, "main.tsh")
+	ch := make(chan []TResult, 1)
+	go func() {
+		out := make([]TResult, len(targets))
+		t := transpiler.New()
+		for i, tg := range targets {
+			func() {
+				defer func() {
+					if r := recover(); r != nil {
+						out[i] = TResult{Panic: fmt.Sprint(r)}
+					}
+				}()
+				var conv transpiler.Converter
+				if tg == Bash {
+					conv = bash.New()
+				} else {
+					conv = batch.New()
+				}
+				s, err := t.Transpile(path, conv)
+				out[i].Script = s
+				if err != nil {
+					out[i].HasErr, out[i].Err = true, err.Error()
+				}
+			}()
+		}
+		ch <- out
+	}()
+	select {
+	case r := <-ch:
+		return r
+	case <-time.After(TranspileWatchdog):
+		out := make([]TResult, len(targets))
+		for i := range out {
+			out[i] = TResult{Panic: fmt.Sprintf("hang: Transpile did not return within %s", TranspileWatchdog)}
+		}
+		return out
+	}
+}
+
 // Transpile writes the files into a fresh directory and transpiles main.
 func Transpile(files map[string]string, main string, target Target) TResult {
 	dir := NewDir("src")
